@@ -20,7 +20,7 @@ import sys
 import threading
 import time as _time
 
-from .. import env
+from .. import env, zkfake
 from . import drv as mdrv
 from . import engine as mengine
 
@@ -39,10 +39,10 @@ class _ProcessExit(BaseException):
         self.code = code
 
 
-def real_loop_case(ctx, idx, rng):
+def real_loop_case(ctx, idx, rng, prop='C09'):
     import os
     from treadmill import utils
-    h = mengine.MHistory(ctx, rng, mdrv.MProfile(p_restart=0.0, max_servers=5), ['C09'])
+    h = mengine.MHistory(ctx, rng, mdrv.MProfile(p_restart=0.0, max_servers=5), [prop])
     d = h.d
     clock = h.clock
     mon = sys.monitoring
@@ -55,29 +55,31 @@ def real_loop_case(ctx, idx, rng):
         d.build()
         srv = d.srv
         srv.sync_delivery = False
+        srv.on_op = None                          # (the driver's own between-writes deliveries belong to the stepped histories)
         srv.deliver = lambda limit=None: 0        # notifications are delivered by the callback thread only
-        client = srv.client('master-real')
-        d.mclient = client
-        m = d.master_mod.Master(d.zkbackend.ZkBackend(client), 'cell')
-        d.master = m
+        def new_master(tag):
+            client_ = srv.client(tag)
+            base_event = client_.handler.event_object
+
+            def event_object():
+                ev = base_event()
+                real_wait = ev.wait
+
+                def wait(timeout=None):
+                    st['waiting_on'] = ev
+                    try:
+                        return real_wait(timeout)
+                    finally:
+                        st['waiting_on'] = None
+                ev.wait = wait
+                return ev
+            client_.handler.event_object = event_object
+            return client_, d.master_mod.Master(d.zkbackend.ZkBackend(client_), 'cell')
+        client, m = new_master('master-real')
+        d.mclient, d.master = client, m
         n_ops = rng.randint(6, 14)
 
         # -- the callback thread ---------------------------------------------------------------------
-        base_event = client.handler.event_object
-
-        def event_object():
-            ev = base_event()
-            real_wait = ev.wait
-
-            def wait(timeout=None):
-                st['waiting_on'] = ev
-                try:
-                    return real_wait(timeout)
-                finally:
-                    st['waiting_on'] = None
-            ev.wait = wait
-            return ev
-        client.handler.event_object = event_object
 
         def cb_loop():
             while not st['stop']:
@@ -120,17 +122,61 @@ def real_loop_case(ctx, idx, rng):
 
         # -- operator commands -------------------------------------------------------------------------
         def placed_now():
-            return sorted(a for s in srv.children(d.z.PLACEMENT) for a in srv.children(d.z.path.placement(s)) if a in d.Z['apps'])
+            return sorted({a for s in srv.children(d.z.PLACEMENT) for a in srv.children(d.z.path.placement(s)) if a in d.Z['apps']})
 
-        def operator(where):
-            kind = rng.choice(['delete-placed', 'delete-placed', 'create', 'create', 'presence', 'prio', 'delete-any'])
+        def operator(where, prefer=None):
+            kinds = ['delete-placed', 'delete-placed', 'create', 'create', 'presence', 'prio', 'delete-any', 'server-delete']
+            if prop == 'C05':
+                kinds += ['group', 'group', 'group', 'create-member']
+            if prop == 'C06':
+                kinds += ['prio', 'prio', 'prio']
+            kind = rng.choice(kinds)
+            if prefer is not None and rng.random() < 0.4:
+                kind = prefer
+            if kind == 'server-delete' and where.startswith('after-'):
+                # (not at the joints of the start-up sequence: a server deleted between load_model and init_schedule gets
+                # its records written back by init_schedule, and nothing ever removes the records of a server that is no
+                # longer in the cell - a side observation in DESIGN section 6, outside the quantifier of C09)
+                kind = 'create'
+            if kind == 'server-delete':
+                hosting = sorted(s_ for s_ in d.Z['servers'] if srv.children(d.z.path.placement(s_)))
+                if len(d.Z['servers']) > 2 and hosting:
+                    name = rng.choice(hosting)
+                    if rng.random() < 0.4:
+                        # the operator's command dies at one of its requests (its session is gone) and is repeated
+                        broken = srv.client('admin-interrupted')
+                        broken.crash_at = rng.randint(1, 5)
+                        try:
+                            d.api.delete_server(broken, name)
+                        except zkfake.Crash:
+                            ctx.count('real_loop_operator_command_interrupted_and_repeated')
+                    d.api.delete_server(d.admin, name)
+                    d.lost.pop(name, None)
+                    del d.Z['servers'][name]
+                    cl = d.node_clients.pop(name, None)
+                    if cl is not None:
+                        srv.expire(cl.sid)
+                    log.append((where, 'server-delete', name))
+                    ctx.count('real_loop_hosting_server_deleted')
+                    return
+                kind = 'create'
+            if kind == 'group':
+                g = rng.choice(['g0', 'g1', 'g2'])
+                d.op_group(g, rng.choice([0, 1, 1, 2, 3, 4]))
+                log.append((where, 'group', g, d.Z['groups'][g]))
+                ctx.count('real_loop_identity_group_resized')
+                return
+            if kind == 'create-member':
+                d.op_group_squeeze()
+                log.append((where, 'group-squeeze-or-members'))
+                return
             if kind == 'delete-placed':
                 p = placed_now()
                 if p:
                     victims = rng.sample(p, min(len(p), rng.choice([1, 1, 2])))
                     d.api.delete_apps(d.admin, victims)
                     for v in victims:
-                        del d.Z['apps'][v]
+                        d.Z['apps'].pop(v, None)
                     log.append((where, 'delete', victims))
                     ctx.count('real_loop_placed_instances_deleted')
                     return
@@ -158,9 +204,24 @@ def real_loop_case(ctx, idx, rng):
                     ctx.count('real_loop_operator_command_at_start_up_joint')
                 return res
             return wrapped
-        m.load_model = joint('load_model', m.load_model)
-        m.init_schedule = joint('init_schedule', m.init_schedule)
-        m.attach_watchers = joint('attach_watchers', m.attach_watchers)
+        def wrap_joints():
+            m.load_model = joint('load_model', m.load_model)
+            m.init_schedule = joint('init_schedule', m.init_schedule)
+            m.attach_watchers = joint('attach_watchers', m.attach_watchers)
+            for key in list(m.resource_event_handlers):
+                m.resource_event_handlers[key] = during(key + '-event', m.resource_event_handlers[key])
+
+        def during(name, fn):
+            def wrapped(*a, **kw):
+                res = fn(*a, **kw)
+                if st['ops'] < n_ops and rng.random() < 0.25:
+                    # the operator's next command lands while the master is still busy with the batch of events it took
+                    st['ops'] += 1
+                    operator('during-' + name, prefer='server-delete')
+                    ctx.count('real_loop_operator_command_during_event_handling')
+                return res
+            return wrapped
+        wrap_joints()
 
         # -- the idle point of the main loop -----------------------------------------------------------
         def settle():
@@ -179,10 +240,48 @@ def real_loop_case(ctx, idx, rng):
                 real_sleep(0.0003)
             return None
 
+        def violations(when):
+            if prop == 'C09':
+                return [(v.mechanism, v.message) for v in mengine.c09_oracle(d, when)]
+            out = []
+            z = d.z
+            if prop == 'C05':
+                # what the master has been told about identity groups is in force: no placed (or published) member
+                # holds an identity outside the group's configured range, none is held twice
+                held = {}
+                for name, app in sorted(m.cell.apps.items()):
+                    if not app.identity_group or app.server is None or app.identity is None:
+                        continue
+                    conf = d.zkutils.get_default(d.admin, z.path.identity_group(app.identity_group)) or {}
+                    count = conf.get('count', 0) if d.admin.exists(z.path.identity_group(app.identity_group)) else 0
+                    if not app.identity < count:
+                        out.append(('identity-out-of-range:%s' % when, '%s on %s holds identity %d of %s whose configured count is %d' % (
+                            name, app.server, app.identity, app.identity_group, count)))
+                    held.setdefault((app.identity_group, app.identity), []).append(name)
+                for (g, i), names in sorted(held.items()):
+                    if len(names) > 1:
+                        out.append(('duplicate-identity:%s' % when, 'identity %d of %s held by %s' % (i, g, names)))
+            if prop == 'C06':
+                # the queue is ordered by the priority the operator configured: the model's priority of an instance
+                # whose manifest carries an explicit one is that one
+                for name, app in sorted(m.cell.apps.items()):
+                    man = d.zkutils.get_default(d.admin, z.path.scheduled(name))
+                    if not man or 'priority' not in man or int(man['priority']) == -1:
+                        continue
+                    if app.priority != int(man['priority']):
+                        out.append(('queue-ordered-by-stale-priority:%s' % when, '%s is queued with priority %r, its manifest says %r' % (
+                            name, app.priority, man['priority'])))
+                        break
+            return out
+
+        def ctx_violated():
+            return st.get('violated', False)
+
         def check(when):
             ctx.count('real_loop_oracle_evaluations')
-            for v in mengine.c09_oracle(d, when):
-                ctx.violation('%s:real-loop' % v.mechanism, v.message, case=dict(case=idx, log=log[-12:], when=when))
+            for mech, msg in violations(when):
+                ctx.violation('%s:real-loop' % mech, msg, case=dict(case=idx, log=log[-12:], when=when))
+                st['violated'] = True
                 raise _Stop()
 
         def sleep_hook(_secs):
@@ -223,7 +322,15 @@ def real_loop_case(ctx, idx, rng):
                 check(when)
 
         def fake_exit(code):
-            raise _ProcessExit(code)
+            et, ev, tb = sys.exc_info()
+            err = _ProcessExit(code)
+            if et is not None:
+                try:
+                    fr = mengine.cengine._exc_site(tb)        # pylint: disable=protected-access
+                    err.cause = '%s@%s: %s' % (et.__name__, fr.name, ev)
+                except Exception:      # noqa
+                    err.cause = '%s: %s' % (et.__name__, ev)
+            raise err
 
         _time.sleep = sleep_hook
         os._exit = fake_exit
@@ -233,12 +340,45 @@ def real_loop_case(ctx, idx, rng):
         mon.set_local_events(TOOL, watch_code, mon.events.LINE)
         cb_thread.start()
         try:
-            m.run_loop()
+            try:
+                m.run_loop()
+            except _Stop:
+                if st['inconclusive'] or ctx_violated():
+                    raise
+                # a second master takes over (the first one is gone: its session ends, its watches with it): its
+                # start-up meets placed instances that hold identities, leases, ...
+                st['second_life'] = True
+                for ev in list(m.process_complete.values()):
+                    ev.set()
+                srv.expire(client.sid)
+                client, m = new_master('master-real-2')
+                d.mclient, d.master = client, m
+                wrap_joints()
+                st.update(ops=0, stuck=0, arm_park=0)
+                n_ops = rng.randint(3, 8)
+                ctx.count('real_loop_second_master_started')
+                log.append(('second-master',))
+                m.run_loop()
         except _Stop:
             pass
         except _ProcessExit as e:
-            ctx.violation('exception:process-exit@run_loop:real-loop', 'the master process exited with %r' % (e.code,),
-                          case=dict(case=idx, log=log[-12:]))
+            # the master process died (exit_on_unhandled): what it leaves behind is judged as it stands; a death that
+            # leaves the store in order is a robustness matter outside the property (its successor takes over)
+            cause = getattr(e, 'cause', None)
+            ctx.count('real_loop_master_process_died')
+            log.append(('master-died', cause))
+            # ... but only when it had nothing left to learn: with an event still queued, undelivered or sitting in
+            # /events, model and store may differ for a moment in the unchanged code too (an operator deletes a hosting
+            # server, the master publishes a cycle and runs its integrity check before it reads the event)
+            unread = bool(m.queue) or bool(srv.pending) or bool(srv.children(d.z.EVENTS)) or st['in_cb']
+            found = [] if unread else violations('master-died')
+            if unread:
+                ctx.count('real_loop_master_died_with_unread_events')
+            if found:
+                mech, msg = found[0]
+                ctx.violation('%s:real-loop' % mech, '%s [the master then died: %s]' % (msg, cause), case=dict(case=idx, log=log[-12:]))
+            else:
+                ctx.notes.append('real loop case %d: master died without a verdict: %s' % (idx, cause))
         except Exception:      # noqa
             et, ev, tb = sys.exc_info()
             fr = mengine.cengine._exc_site(tb)        # pylint: disable=protected-access
